@@ -10,7 +10,7 @@ TARGETS = ["ovniemu"]
 LEVEL = "exploration"
 RULE = ("histories over OHx/OHp/OHr/OHc/OHw/OHe: (i) every sequence up to length L on one thread, "
         "(ii) every legal prefix followed by one arbitrary event (one and two threads), "
-        "(iii) model-guided random walks on 1-3 threads (own physical CPU each), half with one injected "
+        "(ii-b) the same for two threads sharing ONE physical CPU (oversubscription must be refused), (iii) model-guided random walks on 1-3 threads (own physical CPU each), half with one injected "
         "illegal event or a missing end; oracle = reference FSM verdict vs ovniemu exit status, and for "
         "accepted histories thread.prv types 4/2/6 after every event time. Non-trivial = history contains "
         "a pause/cool/warm; distinct = the history itself. Execute on a dead thread is excluded (left open).")
@@ -28,8 +28,9 @@ NEXT = {  # documented FSM
 }
 
 
-def mk_trace(nthreads, seq):
-    """seq: list of (thread index, letter).  Every thread has its own CPU."""
+def mk_trace(nthreads, seq, shared_cpu=False):
+    """seq: list of (thread index, letter).  Every thread has its own CPU, or
+    (shared_cpu) all threads execute on physical CPU 0."""
     streams = []
     for i in range(nthreads):
         s = {"loom": "n.0", "pid": 10, "tid": 11 + i, "app": 1, "events": []}
@@ -40,7 +41,7 @@ def mk_trace(nthreads, seq):
     for (ti, a) in seq:
         clk += 7
         if a == "x":
-            streams[ti]["events"].append(T.OHx(clk, ti))
+            streams[ti]["events"].append(T.OHx(clk, 0 if shared_cpu else ti))
         else:
             streams[ti]["events"].append(T.plain(EV[a], clk))
     return {"streams": streams}
@@ -48,14 +49,19 @@ def mk_trace(nthreads, seq):
 
 def run_seq(case, ctx):
     nth, seq = case["n"], [(int(x[0]), x[1]) for x in case["seq"]]
-    tr = mk_trace(nth, seq)
+    tr = mk_trace(nth, seq, shared_cpu=case.get("shared", False))
     res = judge.judge(ctx, tr, flags=("-l",), only_types={4, 2, 6}, cpu=False)
     if res.get("discard"):
         ctx.stats.excluded_known += 0
         return res
     letters = {a for _, a in seq}
     nt = bool(letters & {"p", "c", "w"})
-    return {"nt": nt, "cls": ["verdict:" + res["verdict"], "threads:%d" % nth]}
+    cls = ["verdict:" + res["verdict"], "threads:%d" % nth]
+    if case.get("shared"):
+        cls.append("shared-cpu")
+        if res["verdict"] == "reject" and res["info"] and "oversubscribed" in str(res["info"].get("why")):
+            cls.append("reject:oversubscription")
+    return {"nt": nt, "cls": cls}
 
 
 def enum_all(maxlen):
@@ -93,6 +99,64 @@ def enum_prefix_plus_one(nth, maxlen):
             for ti in range(nth):
                 for a in "xprcwe":
                     yield {"n": nth, "seq": base + ["%d%s" % (ti, a)]}
+    return f
+
+
+def enum_shared_cpu(maxlen):
+    """Two threads that time-share ONE physical CPU: every history whose per-thread
+    projections are legal FSM paths, plus one arbitrary event; oversubscription
+    (two Running threads) must be refused."""
+    def f(ctx):
+        for pre in legal_prefixes(2, maxlen - 1):
+            base = ["%d%s" % (t, a) for t, a in pre]
+            yield {"n": 2, "seq": base, "shared": True}
+            for ti in range(2):
+                for a in "xprcwe":
+                    yield {"n": 2, "seq": base + ["%d%s" % (ti, a)], "shared": True}
+    return f
+
+
+def complete_paths(maxlen):
+    """legal per-thread histories from not-started to dead"""
+    out = []
+
+    def rec(state, seq):
+        if state == "D":
+            out.append(list(seq))
+            return
+        if len(seq) >= maxlen:
+            return
+        for a, ns in NEXT[state].items():
+            seq.append(a)
+            rec(ns, seq)
+            seq.pop()
+    rec("U", [])
+    return out
+
+
+def interleavings(a, b):
+    if not a:
+        yield [(1, x) for x in b]
+        return
+    if not b:
+        yield [(0, x) for x in a]
+        return
+    for rest in interleavings(a[1:], b):
+        yield [(0, a[0])] + rest
+    for rest in interleavings(a, b[1:]):
+        yield [(1, b[0])] + rest
+
+
+def enum_shared_complete(maxlen):
+    """Two threads time-sharing ONE physical CPU, each with a complete legal
+    life-cycle, in every interleaving: accepted iff the CPU never holds two
+    Running threads (a tree that misses an oversubscription reaches a clean end)."""
+    def f(ctx):
+        paths = complete_paths(maxlen)
+        for pa in paths:
+            for pb in paths:
+                for il in interleavings(pa, pb):
+                    yield {"n": 2, "seq": ["%d%s" % (t, a) for t, a in il], "shared": True}
     return f
 
 
@@ -140,6 +204,10 @@ def parts(tier):
              cap_s={"quick": 200, "thorough": 2400}),
         Part("legal-prefix+1-1thread", run_seq, enum=enum_prefix_plus_one(1, 9 if q else 12)),
         Part("legal-prefix+1-2threads", run_seq, enum=enum_prefix_plus_one(2, 5 if q else 7),
+             cap_s={"quick": 200, "thorough": 2400}),
+        Part("two-threads-one-cpu", run_seq, enum=enum_shared_cpu(5 if q else 7),
+             cap_s={"quick": 200, "thorough": 2400}),
+        Part("two-threads-one-cpu-complete", run_seq, enum=enum_shared_complete(4 if q else 5),
              cap_s={"quick": 200, "thorough": 2400}),
         Part("random-walks", run_seq, strategy=lambda ctx: walks(),
              budget={"quick": 4000, "thorough": 60000}),
